@@ -8,3 +8,5 @@ pub mod words;
 pub mod payload;
 pub mod stream;
 pub mod util;
+pub mod grammar;
+pub mod alpide;
